@@ -1,35 +1,135 @@
 package main
 
 import (
+	"flag"
 	"fmt"
 	"os"
-	"time"
+	"sort"
+	"strings"
 
-	"golang.org/x/tools/go/packages"
 	"golang.org/x/tools/go/ssa"
-	"golang.org/x/tools/go/ssa/ssautil"
 )
 
-func main() {
-	t0 := time.Now()
-	cfg := &packages.Config{
-		Mode:       packages.NeedName | packages.NeedFiles | packages.NeedCompiledGoFiles | packages.NeedImports | packages.NeedTypes | packages.NeedTypesSizes | packages.NeedSyntax | packages.NeedTypesInfo | packages.NeedModule,
-		Dir:        "/repo",
-		BuildFlags: []string{"-tags=verif"},
-	}
-	pkgs, err := packages.Load(cfg, os.Args[1:]...)
+func loadDefault() *World {
+	w, err := LoadWorld(repoDir(), []string{"./modules/..."}, nil)
 	if err != nil {
-		panic(err)
+		fmt.Fprintln(os.Stderr, "load failed:", err)
+		os.Exit(2)
 	}
-	fmt.Println("loaded", len(pkgs), time.Since(t0))
-	n := 0
-	for _, p := range pkgs {
-		for _, e := range p.Errors {
-			fmt.Println("ERR", p.PkgPath, e)
-			n++
+	w.ParseContracts(nil)
+	return w
+}
+
+func main() {
+	if len(os.Args) < 2 {
+		fmt.Println("usage: govc <dump|fn|check> ...")
+		os.Exit(2)
+	}
+	switch os.Args[1] {
+	case "dump":
+		w := loadDefault()
+		for _, q := range os.Args[2:] {
+			fn, err := w.FindFunc(q)
+			if err != nil {
+				fmt.Println(err)
+				continue
+			}
+			fn.WriteTo(os.Stdout)
+		}
+	case "fn":
+		fs := flag.NewFlagSet("fn", flag.ExitOnError)
+		timeout := fs.Int("t", 20, "timeout s")
+		mode := fs.String("mode", "contract", "contract|safety")
+		keep := fs.Bool("keep", false, "print scripts path")
+		fs.Parse(os.Args[2:])
+		w := loadDefault()
+		for _, e := range w.Contracts.Errors {
+			fmt.Println("CONTRACT ERROR:", e)
+		}
+		fail := false
+		for _, q := range fs.Args() {
+			fn, err := w.FindFunc(q)
+			if err != nil {
+				fmt.Println(err)
+				fail = true
+				continue
+			}
+			c := w.Contracts.ByTarget[QualName(fn)]
+			if c == nil && *mode == "contract" {
+				fmt.Println("no contract for", QualName(fn))
+			}
+			r := VerifyFunc(w, fn, c, *mode)
+			res := SolveAll(r.Obls, *timeout, 6)
+			printFnResult(r, res, *keep)
+			for _, o := range r.Obls {
+				if res[o.Name].Status != o.Expect {
+					fail = true
+				}
+			}
+		}
+		if fail {
+			os.Exit(1)
+		}
+	case "check":
+		os.Exit(checkMain(os.Args[2:]))
+	case "funcs":
+		w := loadDefault()
+		var ks []string
+		for k := range w.Funcs {
+			if len(os.Args) < 3 || strings.Contains(k, os.Args[2]) {
+				ks = append(ks, k)
+			}
+		}
+		sort.Strings(ks)
+		for _, k := range ks {
+			fmt.Println(k)
+		}
+	default:
+		fmt.Println("unknown command")
+		os.Exit(2)
+	}
+}
+
+func printFnResult(r *FnResult, res map[string]SolveResult, keep bool) {
+	fmt.Printf("== %s (%d instrs)\n", r.Fn, r.Instrs)
+	for _, o := range r.Obls {
+		s := res[o.Name]
+		mark := "ok  "
+		if s.Status != o.Expect {
+			mark = "FAIL"
+		}
+		fmt.Printf("  %s %-70s %-7s %-6s %5dms %7dB  %s\n", mark, strings.TrimPrefix(o.Name, r.Fn), s.Status, s.Solver, s.Ms, s.Bytes, trunc(o.Src, 80))
+		if s.Status != o.Expect {
+			if s.Model != "" {
+				fmt.Println("      model:", trunc(strings.ReplaceAll(s.Model, "\n", " "), 600))
+			}
+			if s.Detail != "" {
+				fmt.Println("      detail:", trunc(s.Detail, 300))
+			}
 		}
 	}
-	prog, spkgs := ssautil.Packages(pkgs, ssa.InstantiateGenerics)
-	prog.Build()
-	fmt.Println("ssa", len(spkgs), time.Since(t0))
+	pr := func(h string, xs []string) {
+		if len(xs) > 0 {
+			fmt.Printf("  %s: %s\n", h, strings.Join(xs, "; "))
+		}
+	}
+	pr("inlined", r.Inlined)
+	pr("opaque", r.Opaque)
+	pr("dropped", r.Dropped)
+	pr("trusted", r.Trusted)
+	pr("notes", r.Notes)
+	pr("UNSUPPORTED", r.Unsup)
+	pr("contracts used", r.UsedCtr)
+	if keep {
+		fmt.Println("  scripts in", workDir())
+	}
 }
+
+func trunc(s string, n int) string {
+	if len(s) > n {
+		return s[:n] + "..."
+	}
+	return s
+}
+
+var _ = ssa.NaiveForm
